@@ -12,23 +12,29 @@
 (* the first time the stream sees it, `term` is elided when it repeats the  *)
 (* previous statement's term of that stream.                                *)
 (*                                                                          *)
-(* SharedState = "none" is the code.  "rep" and "table" are deliberately    *)
-(* wrong designs (repeated terms / lookup table as process-wide state: a    *)
-(* class attribute, a module-level default encoder); TLC must find Isolated *)
-(* violated for them, which shows the invariant is not vacuous.             *)
+(* Rows first go into the stream's frame flow (a buffer) and reach its      *)
+(* output when the flow is flushed (every FlushEvery statements and at the  *)
+(* end).                                                                    *)
+(* SharedState = "none" is the code.  "rep", "table" and "flow" are         *)
+(* deliberately wrong designs (repeated terms / lookup table / row buffer   *)
+(* as state shared between streams: a class attribute, a module-level       *)
+(* default encoder, a flow object stored back into a shared options         *)
+(* object); TLC must find Isolated violated for each of them, which shows   *)
+(* the invariant is not vacuous.                                            *)
 (* TLC also enumerates every interleaving (PrintSchedule) for the harness,  *)
 (* which imposes each one on real pipelines.                                *)
 (***************************************************************************)
 EXTENDS Integers, Sequences, FiniteSets, TLC, Json
 
-CONSTANTS Streams, Work, SharedState
+CONSTANTS Streams, Work, SharedState, FlushEvery
 
 VARIABLES pos,      \* [stream -> statements encoded]
           table,    \* [stream -> set of keys with an entry]   (index "*" when shared)
           rep,      \* [stream -> previous term]
+          flow,     \* [stream -> rows buffered in the frame flow]
           out,      \* [stream -> rows emitted]
           sched     \* the interleaving so far
-vars == <<pos, table, rep, out, sched>>
+vars == <<pos, table, rep, flow, out, sched>>
 
 Own(s, what) == IF SharedState = what THEN "*" ELSE s
 Keys == Streams \cup {"*"}
@@ -37,6 +43,7 @@ Init ==
   /\ pos = [s \in Streams |-> 0]
   /\ table = [s \in Keys |-> {}]
   /\ rep = [s \in Keys |-> "none"]
+  /\ flow = [s \in Keys |-> <<>>]
   /\ out = [s \in Streams |-> <<>>]
   /\ sched = <<>>
 
@@ -49,7 +56,11 @@ Step(s) ==
   /\ LET st == Work[s][pos[s] + 1]
          t  == Own(s, "table")
          r  == Own(s, "rep")
-     IN /\ out' = [out EXCEPT ![s] = @ \o RowsFor(st, table[t], rep[r])]
+         f  == Own(s, "flow")
+         buffered == flow[f] \o RowsFor(st, table[t], rep[r])
+         flush == (pos[s] + 1) % FlushEvery = 0 \/ pos[s] + 1 = Len(Work[s])      \* frame_from_bounds / final flush
+     IN /\ IF flush THEN out' = [out EXCEPT ![s] = @ \o buffered] /\ flow' = [flow EXCEPT ![f] = <<>>]
+                 ELSE out' = out /\ flow' = [flow EXCEPT ![f] = buffered]
         /\ table' = [table EXCEPT ![t] = @ \cup {st[1]}]
         /\ rep' = [rep EXCEPT ![r] = st[2]]
   /\ pos' = [pos EXCEPT ![s] = @ + 1]
@@ -64,6 +75,9 @@ Solo(w, i, tab, prev) ==
   ELSE RowsFor(w[i], tab, prev) \o Solo(w, i + 1, tab \cup {w[i][1]}, w[i][2])
 
 Done == \A s \in Streams : pos[s] = Len(Work[s])
-Isolated == \A s \in Streams : out[s] = Solo(SubSeq(Work[s], 1, pos[s]), 1, {}, "none")
+Emitted(s) == out[s] \o (IF SharedState = "flow" THEN <<>> ELSE flow[s])       \* what the stream has produced so far
+Isolated == \A s \in Streams :
+              /\ (SharedState # "flow" => Emitted(s) = Solo(SubSeq(Work[s], 1, pos[s]), 1, {}, "none"))
+              /\ (pos[s] = Len(Work[s]) => out[s] = Solo(Work[s], 1, {}, "none"))
 PrintSchedule == Done => PrintT("SCHEDULE " \o ToJson(sched))
 =============================================================================
